@@ -162,7 +162,14 @@ type State struct {
 	loopSt  map[int]*loopEntry
 	dry     *dryRun
 	vc      *FuncVC
+	axioms  []axiomTerm // assumed lazily: added to an obligation only when relevant to its goal
 	quiet   bool // spec translation: assumptions produced by loads are dropped
+}
+
+type axiomTerm struct {
+	name string
+	term string
+	syms []string // uninterpreted spec functions mentioned ("|U:f|"); empty: always included
 }
 
 type loopEntry struct {
@@ -171,7 +178,7 @@ type loopEntry struct {
 
 func (st *State) clone() *State {
 	n := &State{g: st.g, heaps: make(map[string]string, len(st.heaps)), old: st.old, written: make(map[string]bool, len(st.written)),
-		loopSt: map[int]*loopEntry{}, dry: st.dry, vc: st.vc}
+		loopSt: map[int]*loopEntry{}, dry: st.dry, vc: st.vc, axioms: st.axioms}
 	for k, v := range st.heaps {
 		n.heaps[k] = v
 	}
@@ -232,7 +239,7 @@ func (st *State) havocHeap(h string) {
 // ---- location access ----
 
 func locSort(l *Loc) string {
-	if _, isMap := l.Typ.Underlying().(*types.Map); isMap && l.Sub == "" && strings.Contains(l.Heap, ".$") {
+	if _, isMap := l.Typ.Underlying().(*types.Map); isMap && l.Sub == "" && strings.Contains(l.Heap, "$") {
 		return "(Array Int " + smtSortOf(l.Typ) + ")"
 	}
 	es := elemSort(l.Typ)
@@ -483,14 +490,30 @@ func (st *State) freshVal(t types.Type, prefix string) Val {
 	return IntV(v)
 }
 
-// alloc returns a fresh non-nil address that is not alive, and marks it alive.
-func (st *State) alloc(prefix string) string {
+// alloc returns a fresh non-nil address that is not alive, and marks it alive. The block [a, a+size) lies above
+// the allocation watermark $brk (bump-allocator abstraction: fresh blocks never overlap blocks that existed before).
+func (st *State) alloc(prefix string, size string) string {
 	a := st.g.fresh(prefix, "Int")
 	al := st.cur("$alive", "(Array Int Bool)")
-	st.assume(fmt.Sprintf("(and (> %s 0) (not (select %s %s)))", a, al, a))
+	brk := st.cur("$brk", "(Array Int Int)")
+	st.assume(fmt.Sprintf("(and (> %s 0) (>= %s (select %s 0)) (not (select %s %s)))", a, a, brk, al, a))
+	wasW := st.written["$alive"]
+	wasB := st.written["$brk"]
 	st.setHeap("$alive", "(Array Int Bool)", fmt.Sprintf("(store %s %s true)", al, a))
-	delete(st.written, "$alive")
+	st.setHeap("$brk", "(Array Int Int)", fmt.Sprintf("(store %s 0 (+ %s (ite (> %s 0) %s 1)))", brk, a, size, size))
+	if !wasW {
+		delete(st.written, "$alive")
+	}
+	if !wasB {
+		delete(st.written, "$brk")
+	}
 	return a
+}
+
+// belowBrk assumes that the object of the given size at address p was allocated before now.
+func (st *State) belowBrk(p string, size string) {
+	brk := st.cur("$brk", "(Array Int Int)")
+	st.assume(fmt.Sprintf("(<= (+ %s %s) (select %s 0))", p, size, brk))
 }
 
 func ite(c, a, b string) string {
